@@ -283,7 +283,7 @@ def skipguard(rep, ctx, sfx):
                 if flags == (False, False):
                     continue
                 hf = terms.HirFront(sfn, {}, rule_callees=[c02.VM + "::parse_rule"])
-                t = norm(hf.term(arm["body"]))
+                t = norm(c02.hoisted_guards(sfn, arm, hf, hf.term(arm["body"])))
                 key = "vm:ws=%s,comment=%s" % flags
                 r.instance(key, where(arm["body"]))
                 if not (t[0] == "if" and t[1] == GUARD and t[3] == ("ok",)):
